@@ -98,6 +98,10 @@ func leanTyX(t gty) string {
 	switch {
 	case strings.HasPrefix(s, "[]"):
 		return "(List " + leanTyX(gty(s[2:])) + ")"
+	case s == "str" && bytesMode:
+		return "(List UInt8)"
+	case s == "err":
+		return "Bool"
 	case s == "str":
 		return "String"
 	case s == "errc":
@@ -442,6 +446,11 @@ func (m *imp) hoistCalls(e ast.Expr) []string {
 
 // expr: the pure part (index/slice expressions have been hoisted)
 func (m *imp) expr(e ast.Expr, want gty) (string, gty) {
+	if bytesMode {
+		if s, ty, ok := m.bytesExpr(e, want); ok {
+			return s, ty
+		}
+	}
 	if tmp, ok := m.idxTmp[e]; ok && m.sm {
 		return tmp, m.idxTy[e] // an effect that was bound to a name before
 	}
@@ -840,6 +849,9 @@ func (m *imp) assigned(list []ast.Stmt) []string {
 			case *ast.IncDecStmt:
 				note(x.X)
 			case *ast.CallExpr:
+				if bytesMode && exprText(m.p.fset, x.Fun) == "f.WriteString" {
+					seen["f_written"] = true // what was written so far grows
+				}
 				if sel, ok := x.Fun.(*ast.SelectorExpr); ok {
 					if id, ok := sel.X.(*ast.Ident); ok && id.Name == m.recv {
 						if k := m.p.resolveMethod(m.recvTy, sel.Sel.Name); k != "" {
@@ -997,6 +1009,11 @@ func (m *imp) block(list []ast.Stmt, c ictx) string {
 	}
 	if m.em && m.emSkip(list[0]) {
 		return rest()
+	}
+	if bytesMode {
+		if s, ok := m.bytesStmt(list[0], rest); ok {
+			return s
+		}
 	}
 	switch s := list[0].(type) {
 	case *ast.ReturnStmt:
@@ -1478,13 +1495,22 @@ func (m *imp) loop(f *ast.ForStmt, r *ast.RangeStmt, rest func() string, outer i
 		body, condE, post = f.Body.List, f.Cond, f.Post
 	} else {
 		// for j := range xs / for _, g := range xs : the length is taken once
+		if _, plain := r.X.(*ast.Ident); !plain && partial(r.X) {
+			// the ranged-over expression (data[1:]) is evaluated once, before the loop
+			hp := m.hoistIdx(r.X)
+			v, vty := m.expr(r.X, "")
+			name := m.fresh("rng")
+			m.t.env[name] = vty
+			pre = strings.Join(hp, "\n  ") + fmt.Sprintf("\n  let %s : %s := %s\n  ", name, leanTyX(vty), v)
+			r = &ast.RangeStmt{Key: r.Key, Value: r.Value, Tok: r.Tok, X: ast.NewIdent(name), Body: r.Body}
+		}
 		xs, xty := m.expr(r.X, "")
 		if !strings.HasPrefix(string(xty), "[]") {
 			panic("translate(imp): range over a non-slice")
 		}
 		bound = m.fresh("n")
 		m.t.env[bound] = "i64"
-		pre = fmt.Sprintf("let %s : Int64 := (Go.glen %s)\n  ", bound, xs)
+		pre += fmt.Sprintf("let %s : Int64 := (Go.glen %s)\n  ", bound, xs)
 		if k, ok := r.Key.(*ast.Ident); ok && k.Name != "_" {
 			hidden = k.Name
 		} else {
